@@ -3,6 +3,7 @@ package c08
 import (
 	"fmt"
 	"strings"
+	"unicode/utf8"
 
 	jsonv2 "github.com/go-json-experiment/json"
 	"github.com/go-json-experiment/json/jsontext"
@@ -26,6 +27,7 @@ func namePairs() []namePair {
 	return []namePair{
 		{"\xff", "\xfe", true}, {"\xff", "�", true}, {"a\xff", "a\xfe", true}, {"\xc0", "\xc1", true}, {"\xed\xa0\x80", "\xff\xff\xff", true},
 		{"\xff", "\xff\xff", false}, {"a\xff", "b\xff", false}, {"x", "y", false}, {"\xe2\x82", "\xf0\x9f", true}, {"k\xffk", "k�k", true},
+		{"caf\xc3", "caf\xc4", true}, {"\xdf", "\xc2", true}, {"\xc3", "\xc3(", false}, {"ok\xc3", "ok\xc3\xa9", false},
 	}
 }
 
@@ -157,7 +159,7 @@ var escapePairs = [][2]string{{`"a"`, `"a"`}, {`"\u0061"`, `"a"`}, {`"\ud800"`, 
 func checkMarshalGrid(ci, pi, oi int) string {
 	p := namePairs()[pi]
 	v := mgCarriers()[ci].build(p)
-	return checkMarshalValue(v, oi, p.collide, strings.ContainsAny(p.a+p.b, "\xff\xfe\xc0\xc1\xed\xe2\xf0"))
+	return checkMarshalValue(v, oi, p.collide, !utf8.ValidString(p.a) || !utf8.ValidString(p.b))
 }
 
 func checkMarshalValue(v any, oi int, collide, illFormed bool) (msg string) {
@@ -166,7 +168,7 @@ func checkMarshalValue(v any, oi int, collide, illFormed bool) (msg string) {
 			msg = fmt.Sprintf("library panic: %v", r)
 		}
 	}()
-	dup, utf := oi&1 != 0, oi&2 != 0
+	dup, utf, nondet := oi&1 != 0, oi&2 != 0, oi&4 != 0
 	var opts []jsonv2.Options
 	if dup {
 		opts = append(opts, jsontext.AllowDuplicateNames(true))
@@ -174,7 +176,9 @@ func checkMarshalValue(v any, oi int, collide, illFormed bool) (msg string) {
 	if utf {
 		opts = append(opts, jsontext.AllowInvalidUTF8(true))
 	}
-	opts = append(opts, jsonv2.Deterministic(true))
+	if !nondet {
+		opts = append(opts, jsonv2.Deterministic(true))
+	}
 	b, err := jsonv2.Marshal(v, opts...)
 	if err == nil {
 		if !refjson.Valid(b, refjson.Opts{AllowDupNames: dup, AllowInvalidUTF8: utf}) {
@@ -197,7 +201,7 @@ func marshalGrid(r *evid.Run) {
 	cars, ps := mgCarriers(), namePairs()
 	for ci := range cars {
 		for pi := range ps {
-			for oi := 0; oi < 4; oi++ {
+			for oi := 0; oi < 8; oi++ {
 				n++
 				if m := checkMarshalGrid(ci, pi, oi); m != "" {
 					cs := Case{Part: "marshal-grid", Fill: ci, Pos1: pi, Pos2: oi, Doc: fmt.Sprintf("%s with names %q / %q", cars[ci].name, ps[pi].a, ps[pi].b)}
@@ -228,7 +232,7 @@ func marshalGrid(r *evid.Run) {
 	}
 	r.Evaluations.Add(n)
 	r.Nontrivial.Add(n)
-	r.Bound("marshal grid: %d carriers of member names (map keys of string / named-string / text-marshaler kinds, embedded fallback maps and raw values alone and next to a field, raw value members and elements, MarshalJSONTo tokens, MarshalJSON output) x %d name pairs (distinct bytes that coincide after U+FFFD substitution, and controls) x 4 Allow* combinations; %d escape-spelling pairs through the raw carriers", len(cars), len(ps), len(escapePairs))
+	r.Bound("marshal grid: %d carriers of member names (map keys of string / named-string / text-marshaler kinds, embedded fallback maps and raw values alone and next to a field, raw value members and elements, MarshalJSONTo tokens, MarshalJSON output) x %d name pairs (distinct bytes that coincide after U+FFFD substitution, and controls) x 4 Allow* combinations x {Deterministic, map order as it comes}; %d escape-spelling pairs through the raw carriers", len(cars), len(ps), len(escapePairs))
 }
 
 // NameCarrierValues returns every carrier of member names built for every name pair (used by C02, whose oracle
